@@ -66,7 +66,7 @@ func checkC14(w *World, r *Report) {
 	r.guard("R14.2", func() {
 		sp := w.Pkg("schema")
 		val := func(n string) int64 {
-			c, ok := sp.Types.Scope().Lookup(n).(*types.Const)
+			c, ok := scopeLookup(sp.Types.Scope(), n).(*types.Const)
 			if !ok {
 				panic(undecided{"schema." + n})
 			}
@@ -218,7 +218,7 @@ func checkC14(w *World, r *Report) {
 			switch x := s.(type) {
 			case *ast.IfStmt:
 				if ce, ok := ast.Unparen(x.Cond).(*ast.CallExpr); ok {
-					if c := calleeOf(p, ce); c != nil && c.Name() == "NotSupported" {
+					if c := calleeOf(p, ce); c != nil && nm(c) == "NotSupported" {
 						if rets := returnsIn(x.Body); len(rets) == 1 {
 							if v := ConstOf(p, rets[0].Results[0]); v != nil && constant.BoolVal(v) {
 								ns = true
@@ -370,13 +370,13 @@ func checkC14(w *World, r *Report) {
 			case *ast.AssignStmt:
 				if len(y.Rhs) == 1 {
 					if ce, ok := y.Rhs[0].(*ast.CallExpr); ok {
-						if c := calleeOf(p, ce); c != nil && c.Name() == "LookupChild" && len(ce.Args) == 2 {
+						if c := calleeOf(p, ce); c != nil && nm(c) == "LookupChild" && len(ce.Args) == 2 {
 							found = objOfIdent(p, y.Lhs[0])
 						}
 					}
 				}
 			case *ast.CallExpr:
-				if c := calleeOf(p, y); c != nil && c.Name() == "ReplaceChild" && len(y.Args) == 1 && found != nil && objOfIdent(p, y.Args[0]) == found {
+				if c := calleeOf(p, y); c != nil && nm(c) == "ReplaceChild" && len(y.Args) == 1 && found != nil && objOfIdent(p, y.Args[0]) == found {
 					okDel = true
 				}
 			}
@@ -389,7 +389,7 @@ func checkC14(w *World, r *Report) {
 		exists := false
 		ast.Inspect(rfd.Body, func(x ast.Node) bool {
 			if ce, ok := x.(*ast.CallExpr); ok {
-				if c := calleeOf(p, ce); c != nil && c.Name() == "ReplaceChildByType" && len(ce.Args) == 2 && objOfIdent(p, ce.Args[1]) == paramObj(p, rfd, 1) {
+				if c := calleeOf(p, ce); c != nil && nm(c) == "ReplaceChildByType" && len(ce.Args) == 2 && objOfIdent(p, ce.Args[1]) == paramObj(p, rfd, 1) {
 					okRep = true
 				}
 			}
@@ -408,7 +408,7 @@ func checkC14(w *World, r *Report) {
 		okAdd := false
 		ast.Inspect(afd.Body, func(x ast.Node) bool {
 			if ce, ok := x.(*ast.CallExpr); ok {
-				if c := calleeOf(p, ce); c != nil && c.Name() == "AddChildren" && len(ce.Args) == 1 && objOfIdent(p, ce.Args[0]) == paramObj(p, afd, 1) {
+				if c := calleeOf(p, ce); c != nil && nm(c) == "AddChildren" && len(ce.Args) == 1 && objOfIdent(p, ce.Args[0]) == paramObj(p, afd, 1) {
 					okAdd = true
 				}
 			}
@@ -474,7 +474,7 @@ func checkC20(w *World, r *Report) {
 			var built []ssa.Value
 			for _, b := range f.Blocks {
 				for _, in := range b.Instrs {
-					if c, ok := in.(*ssa.Call); ok && c.Call.StaticCallee() != nil && c.Call.StaticCallee().Name() == "BuildNode" {
+					if c, ok := in.(*ssa.Call); ok && c.Call.StaticCallee() != nil && nm(c.Call.StaticCallee()) == "BuildNode" {
 						built = append(built, c)
 					}
 				}
@@ -489,7 +489,7 @@ func checkC20(w *World, r *Report) {
 					if !ok {
 						continue
 					}
-					if bi, ok := c.Call.Value.(*ssa.Builtin); !ok || bi.Name() != "append" || len(c.Call.Args) != 2 {
+					if bi, ok := c.Call.Value.(*ssa.Builtin); !ok || nm(bi) != "append" || len(c.Call.Args) != 2 {
 						continue
 					}
 					for _, bv := range built {
